@@ -322,8 +322,15 @@ func genItems(t *rapid.T, forceID bool) []Item {
 			}
 			it.Lit = pick(t, pool, "nlit")
 		case k == 14:
-			// text concatenation over flat columns that some rows lack: the value is only required to be independent of the history
+			// opaque expressions whose value is only required to be independent of the history: text concatenation over
+			// flat columns that some rows lack, or a parenthesised equality of a column whose values change kind from
+			// row to row (int, float, int64, text, NULL, absent)
 			it.Kind = "concat"
+			if rapid.Bool().Draw(t, "opaquecmp") {
+				col := pick(t, []string{"a", "b", "c", "score", "w", "s"}, "cmpcol")
+				it.Lit = "(" + col + " " + pick(t, []string{"==", "!="}, "cmpop") + " " + pick(t, []string{"5", "2", "0", "2.5", "'x'", "b"}, "cmplit") + ")"
+				break
+			}
 			a, b := pick(t, []string{"s", "t", "brand"}, "ca"), pick(t, []string{"s", "t", "brand", "zz"}, "cb")
 			it.Lit = a + " + " + pick(t, []string{"' '", "'-'", "''", "\"_\""}, "csep") + " + " + b
 		default:
@@ -749,6 +756,7 @@ func clip(s string) string {
 
 func runCase(c Case) (res pbt.Result) {
 	q := sqlOf(c)
+	run.ResetExprCaches() // the case is the whole history the process-wide expression caches have seen
 	a, err := run.Open(q)
 	if err != nil {
 		res.Class("rejected-at-execute")
@@ -835,6 +843,7 @@ func runCase(c Case) (res pbt.Result) {
 		if si >= len(c.Rows) {
 			continue
 		}
+		run.ResetExprCaches() // "alone" = first row the process ever evaluates for this query (instance A is idle)
 		f, err := run.Open(q)
 		if err != nil {
 			res.Add(pbt.D("execute-unstable", "%s accepted once, rejected later: %v", q, err))
